@@ -20,7 +20,7 @@
 (* N = its NestedMessage, X = TestAllExtensions (extension names), and     *)
 (* B = a synthetic message whose field numbers and oneof indexes straddle  *)
 (* the 63/64 boundary of set.Ints.                                         *)
-(* Accepts(..) is the verdict; MC_JsonFieldSet proves on all member        *)
+(* Decode(..) is the verdict; MC_JsonFieldSet proves on all member         *)
 (* sequences up to a bound that an accepted document never sets a          *)
 (* singular field twice nor two members of one oneof (the property), and   *)
 (* the nesting lemma  accepted chain of depth d  <=>  d <= limit.          *)
